@@ -437,7 +437,7 @@ func genMsgs(r *hc.RNG, big int) (ms []proto.Message, valid bool) {
 
 func run(c *hc.Ctx) error {
 	r := c.Rng
-	bt := c.NewBatcher()
+	bt := c.NewC20Batcher()
 	add := bt.Add
 
 	// ---- 1. containers
